@@ -183,6 +183,9 @@ def fold_icmp(pred, a, b):
     return None
 
 
+REMAT_OPS = ("getelementptr", "bitcast", "zext", "sext", "trunc", "ptrtoint", "inttoptr")
+
+
 class Path:
     def __init__(self, fn, module, call_effects=None):
         self.fn = fn
@@ -202,6 +205,7 @@ class Path:
         self.ret_inst = None
         self.edge_count = {}
         self.back_mark = {}
+        self._remat_busy = set()
         self.escaped = set()    # alloca names whose address escaped
         self.rstores = {}       # root -> tuple of (off, size, var) stores seen on this path
         self.known = {}         # branch condition expr -> value decided earlier on this path
@@ -220,6 +224,7 @@ class Path:
         p.blocks = list(self.blocks)
         p.edge_count = dict(self.edge_count)
         p.back_mark = dict(self.back_mark)
+        p._remat_busy = set()
         p.escaped = set(self.escaped)
         p.rstores = dict(self.rstores)
         p.known = dict(self.known)
@@ -234,6 +239,19 @@ class Path:
             e = self.env.get(v.name)
             if e is None:
                 if self.allow_sym:
+                    # a value computed before this segment: address arithmetic and other pure operations on arguments,
+                    # globals and constants are re-evaluated (they mean the same everywhere); anything that depends on
+                    # memory or on a loop-carried value becomes a symbol
+                    d = v.inst
+                    if d is not None and d.op in REMAT_OPS and v.name not in self._remat_busy:
+                        self._remat_busy.add(v.name)
+                        try:
+                            self.step(d, None)
+                        finally:
+                            self._remat_busy.discard(v.name)
+                        e = self.env.get(v.name)
+                        if e is not None and not contains(e, lambda x: x[0] == "sym"):
+                            return e
                     e = ("sym", v.name)
                     self.env[v.name] = e
                     return e
